@@ -868,7 +868,18 @@ def damage(rng, t, arity=None):
         if F:
             break
     F = F or (0, 777, 1)
-    kind = rng.choice(('free', 'free', 'vacuous', 'vacuous', 'rebound', 'rebound', 'arity-less', 'arity-more'))
+    kind = rng.choice(('free', 'free', 'vacuous', 'vacuous', 'vacuous-reused', 'vacuous-reused', 'rebound', 'rebound',
+                       'arity-less', 'arity-more'))
+    if kind == 'vacuous-reused':
+        # a vacuous quantifier whose variable IS used, but under another quantifier in a disjoint scope
+        # (before or after it in reading order)
+        v = fresh if rng.random() < 0.5 or not used else rng.choice(sorted(used))
+        if v in syn.free_vars(t) or any(x[0] == 'Q' and x[2] == v for x in syn.walk(t)):
+            v = fresh
+        good = ('Q', rng.choice(syn.QUANTIFIERS), v, ('P', F, (v,)))
+        bad = ('Q', rng.choice(syn.QUANTIFIERS), v, t)
+        pair = (good, bad) if rng.random() < 0.7 else (bad, good)
+        return 'vacuous', ('O', rng.choice(('Conjunction', 'Disjunction', 'MaterialConditional', 'Conditional')), pair)
     if kind == 'free':
         if preds and rng.random() < 0.8:
             p, n, b = rng.choice(preds)
